@@ -39,8 +39,8 @@ type Params struct {
 	Chunk   int         `json:"chunk"`
 	Buffer  int         `json:"buffer"`
 	Procs   int         `json:"procs"`
-	Cancel  bool        `json:"cancel,omitempty"` // a thread cancels the request context at an arbitrary time
-	Early   int         `json:"early,omitempty"`  // the consumer stops after this many results and closes
+	Cancel  bool        `json:"cancel,omitempty"`   // a thread cancels the request context at an arbitrary time
+	Early   int         `json:"early,omitempty"`    // the consumer stops after this many results and closes
 	FaultAt int         `json:"fault_at,omitempty"` // the k-th datastore read fails (1-based; 0 = never)
 	Fault   string      `json:"fault,omitempty"`    // "panic" | "error"
 }
@@ -93,7 +93,7 @@ func models() map[string]*ref.Model {
 		// cycle plus a non-cyclic input on the same node
 		"cycle-plus-union": {Types: map[string]map[string]*ref.RelDef{"user": {}, "doc": {"r1": rel(ref.This(), rUser), "r0": rel(ref.Bin(ref.KUnion, ref.This(), ref.Comp("r1")), rUser, rR0)}}},
 		// cycle under an intersection / exclusion with a non-cyclic operand
-		"cycle-and": {Types: map[string]map[string]*ref.RelDef{"user": {}, "doc": {"aux": rel(ref.This(), rUser), "r0": rel(ref.This(), rUser, rR0), "r1": rel(ref.Bin(ref.KInter, ref.Comp("r0"), ref.Comp("aux")))}}},
+		"cycle-and":    {Types: map[string]map[string]*ref.RelDef{"user": {}, "doc": {"aux": rel(ref.This(), rUser), "r0": rel(ref.This(), rUser, rR0), "r1": rel(ref.Bin(ref.KInter, ref.Comp("r0"), ref.Comp("aux")))}}},
 		"cycle-butnot": {Types: map[string]map[string]*ref.RelDef{"user": {}, "doc": {"aux": rel(ref.This(), rUser), "r0": rel(ref.This(), rUser, rR0), "r1": rel(ref.Bin(ref.KDiff, ref.Comp("r0"), ref.Comp("aux")))}}},
 		// acyclic control
 		"acyclic": {Types: map[string]map[string]*ref.RelDef{"user": {}, "group": {"member": rel(ref.This(), rUser)}, "doc": {"r0": rel(ref.This(), rUser, rMember)}}},
